@@ -1,10 +1,3 @@
-HOOK_COMMITS = []
+from props import META  # noqa: F401
+HOOK_COMMITS = ["4a3c34b"]
 NOT_APPLICABLE = {}
-META = {
-    "C14": {
-        "text": "Theorem should_process_eq_spec: for every configuration the builder API can produce and every endpoint 4-tuple, the model of FilterConfig::should_process decides exactly the documented rule (allow/deny/no-filter; port sides, any-port union, half-open ranges incl. 0 and 65535; address lists; CIDR blocks for every prefix 0..32/128), proved in Lean with no bound. The model is tied to the three filter.rs copies by a differential run of all three crates (and the unified re-export) on ~5*10^4 (quick) / ~10^6 (thorough) structured cases including an exhaustive mode x presence x side x hit grid.",
-        "design_ref": "DESIGN.md §7 C14",
-        "note": "Trusted: Lean kernel; harness/driver/diff; my reading of the statement (Spec/Filter.lean). ipnetwork's contains and the std/ipnetwork string parsers are modelled and exercised, not proved. A side constrained only by empty ranges is treated as unspecified.",
-        "technique": "Lean 4 theorem (iff between model and declarative spec) + differential correspondence against the three crates",
-    },
-}
